@@ -58,6 +58,7 @@ type Sim struct {
 	everInv bool      // InvalidateBlock was used in this run
 
 	heavySigops         bool // buildPoolTx produces sigop-heavy transactions
+	preferWitness       bool // buildPoolTx spends witness-program outputs only
 	ps                  *poolState
 	reorgSincePoolEmpty bool // a reorganisation happened while the pool was not empty
 }
